@@ -288,10 +288,12 @@ class RFCOMM_Frame:
 
     @staticmethod
     def make_mcc(mcc_type: int, c_r: int, data: bytes) -> bytes:
-        return (
-            bytes([(mcc_type << 2 | c_r << 1 | 1) & 0xFF, (len(data) & 0x7F) << 1 | 1])
-            + data
-        )
+        if len(data) < 128:
+            length = bytes([len(data) << 1 | 1])
+        else:
+            # Two-octet length indicator (EA bit clear in the first octet)
+            length = bytes([(len(data) & 0x7F) << 1, (len(data) >> 7) & 0xFF])
+        return bytes([(mcc_type << 2 | c_r << 1 | 1) & 0xFF]) + length + data
 
     @staticmethod
     def sabm(c_r: int, dlci: int):
